@@ -21,6 +21,7 @@ func init() {
 		"pkg/controllers/nodeclaim/disruption",
 		"pkg/controllers/nodepool/hash",
 		"pkg/controllers/provisioning/scheduling",
+		"pkg/controllers/nodeclaim/lifecycle",
 	}, func(g *gen) {
 		const grp = "C15Hash"
 		g.c15ReachableStructs(grp, "pkg/apis/v1", "NodeClaimTemplate", "structs")
@@ -52,6 +53,19 @@ func init() {
 		// annotation keys inside NewNodeClaimTemplate (the hash must be computed from the template the NodeClaim is built
 		// from, not read from the NodePool's eventually-consistent annotation)
 		g.c15Stamps(grd, "pkg/controllers/provisioning/scheduling", "NewNodeClaimTemplate")
+		// which offerings the instance-type check consults: the full list (HasCompatible directly on it.Offerings), not a
+		// filtered one (an offering that is merely unavailable at the moment is still offered)
+		g.callSeq(grd, "pkg/controllers/nodeclaim/disruption", "instanceTypeNotFound", "instanceTypeNotFoundOfferingCalls",
+			[]string{"Available", "Compatible", "HasCompatible"})
+		// the launch: the cached answer or a real launch, then — on BOTH paths — the answer is cached, merged into the
+		// NodeClaim (PopulateNodeClaimDetails) and only then Launched is set; launchNodeClaim itself merges nothing
+		g.callSeq(grd, "pkg/controllers/nodeclaim/lifecycle", "Launch.Reconcile", "launchReconcileCalls",
+			[]string{"cache.Get", "launchNodeClaim", "cache.SetDefault", "PopulateNodeClaimDetails", "SetTrue"})
+		g.callSeq(grd, "pkg/controllers/nodeclaim/lifecycle", "Launch.launchNodeClaim", "launchNodeClaimCalls",
+			[]string{"Create", "PopulateNodeClaimDetails"})
+		// the order of the lifecycle controller's API writes: (finalizer) Patch, sub-reconcilers, Patch, Status().Patch
+		g.callSeq(grd, "pkg/controllers/nodeclaim/lifecycle", "Controller.Reconcile", "lifecycleReconcileCalls",
+			[]string{"AddFinalizer", "kubeClient.Patch", "reconciler.Reconcile", "kubeClient.Status().Patch"})
 	})
 }
 
